@@ -2,6 +2,7 @@ package props
 
 import (
 	"fmt"
+	"math"
 	"math/rand/v2"
 	"time"
 
@@ -47,7 +48,19 @@ func renderInstant(r *rand.Rand, t time.Time) string {
 	return s
 }
 
+// farInstant returns an instant centuries before (delta < 0) or after now.
+func farInstant(r *rand.Rand, future bool) time.Time {
+	if future {
+		return pick(r, []time.Time{time.Date(9999, 6, 30, 23, 59, 59, 0, time.UTC), time.Date(2300, 1, 1, 0, 0, 0, 0, time.UTC), time.Date(2262, 4, 12, 0, 0, 0, 0, time.UTC), time.Date(3000, 6, 1, 12, 0, 0, 5e8, time.UTC)})
+	}
+	return pick(r, []time.Time{time.Date(1600, 1, 1, 0, 0, 0, 0, time.UTC), time.Date(1677, 9, 21, 0, 0, 0, 0, time.UTC), time.Date(2, 3, 1, 0, 0, 0, 0, time.UTC), time.Date(1900, 1, 1, 0, 0, 0, 0, time.UTC)})
+}
+
 func c05Bound(r *rand.Rand, now time.Time, delta time.Duration, kind string) c05bound {
+	if delta == time.Duration(math.MaxInt64) || delta == -time.Duration(math.MaxInt64) {
+		t := farInstant(r, delta > 0)
+		return c05bound{kind: "ok", t: t, text: sim.S(renderInstant(r, t))}
+	}
 	switch kind {
 	case "missing":
 		return c05bound{kind: kind}
@@ -74,6 +87,10 @@ func randDelta(r *rand.Rand, future bool) time.Duration {
 	d := time.Duration(1+r.IntN(3600)) * time.Second
 	if r.IntN(3) == 0 {
 		d += time.Duration(r.IntN(1e9))
+	}
+	if r.IntN(12) == 0 {
+		// far bounds ("never expires" / ancient): centuries away, beyond what fits in nanoseconds since 1970
+		d = time.Duration(math.MaxInt64) // clamp marker, replaced by the caller through farInstant
 	}
 	if !future {
 		return -d
